@@ -252,6 +252,56 @@ pub fn rand_echo_word(r: &mut Rng, c: &WordCfg) -> String {
     out
 }
 
+/// A word built to be matched by `rule`: before-context, input and after-context of its first alternative are instantiated
+/// element by element (a group letter by a typical member, a set by one member, a variable by what its binder got, an
+/// optional by its minimum, `...` by a segment or two) and padded at the open ends. Nothing guarantees the match - matrices
+/// get a random segment - but it happens far more often than on a random word, which is what the monitors using this want:
+/// long partial matches. None when the rule has no instantiable input.
+pub fn witness_word(rule: &Rule, r: &mut Rng) -> Option<String> {
+    fn member(c: char, r: &mut Rng) -> &'static str {
+        match c { 'V' => *r.pick(&["a", "i", "u", "e", "o"]), 'O' => *r.pick(&["p", "t", "k", "s", "b"]), 'S' => *r.pick(&["n", "m", "l", "r"]), 'P' => *r.pick(&["p", "t", "k", "d"]),
+                  'F' => *r.pick(&["s", "f", "x", "z"]), 'L' => *r.pick(&["l", "r"]), 'N' => *r.pick(&["n", "m", "ŋ"]), 'G' => *r.pick(&["j", "w"]), _ => *r.pick(&["t", "k", "s", "n", "l", "m"]) }
+    }
+    // tokens: segments as text, "." for a boundary
+    fn inst(els: &[El], r: &mut Rng, vars: &mut std::collections::HashMap<u8, Vec<String>>, out: &mut Vec<String>) {
+        for e in els {
+            let start = out.len();
+            let mut bind: Option<u8> = None;
+            match e {
+                El::Ipa(s, m) => { out.push(s.clone()); if m.as_ref().map(|m| m.feats.iter().any(|(n, v)| n == "long" && *v == FV::Pos)).unwrap_or(false) { out.push("ː".into()) } }
+                El::Mat(_, b) => { out.push(rand_seg(r)); bind = *b; }
+                El::Grp(c, _, b) => { out.push(member(*c, r).to_string()); bind = *b; }
+                El::Set(v) => { let k = r.below(v.len().max(1)); if let Some(x) = v.get(k) { inst(std::slice::from_ref(x), r, vars, out) } }
+                El::Syll(_, b) => { out.push(".".into()); out.push(member('C', r).to_string()); out.push(member('V', r).to_string()); out.push(".".into()); bind = *b; }
+                El::Struct(items, _, b) => { out.push(".".into()); inst(items, r, vars, out); out.push(".".into()); bind = *b; }
+                El::Var(n, _) => if let Some(v) = vars.get(n) { out.extend(v.iter().cloned()) } else { out.push(rand_seg(r)) },
+                El::Ellipsis => for _ in 0..r.range(1, 2) { out.push(rand_seg(r)) },
+                El::Opt(items, lo, hi) => { let k = if *hi == 0 { *lo + r.below(2) } else { (*lo).min(3).max(if r.chance(1, 2) { 1.min(*hi) } else { 0 }) }; for _ in 0..k.max(*lo).min(3) { inst(items, r, vars, out) } }
+                El::SyllB => out.push(".".into()),
+                El::WordB => {}
+            }
+            if let Some(b) = bind { vars.insert(b, out[start..].to_vec()); }
+        }
+    }
+    let input = rule.input.iter().find_map(|t| if let Term::Els(e) = t { Some(e.clone()) } else { None });
+    let env = match &rule.ctx { EnvBlock::List(v) => v.first().map(|s| match s { EnvSpec::One(e) => e.clone(), EnvSpec::Set(es) => es.first().cloned().unwrap_or_default() }), EnvBlock::Special(x) => Some(Env { before: vec![], after: x.clone() }), EnvBlock::None => None }.unwrap_or_default();
+    if input.is_none() && env.before.is_empty() && env.after.is_empty() { return None }
+    let mut vars = std::collections::HashMap::new();
+    let mut toks: Vec<String> = Vec::new();
+    let open_left = env.before.first() != Some(&El::WordB);
+    let open_right = env.after.last() != Some(&El::WordB);
+    if open_left { for _ in 0..r.below(3) { toks.push(rand_seg(r)); if r.chance(1, 3) { toks.push(".".into()) } } }
+    inst(&env.before, r, &mut vars, &mut toks);
+    if let Some(i) = &input { inst(i, r, &mut vars, &mut toks) }
+    inst(&env.after, r, &mut vars, &mut toks);
+    if open_right { for _ in 0..r.below(3) { if r.chance(1, 3) { toks.push(".".into()) } toks.push(rand_seg(r)); } }
+    // tidy the boundaries: none at the edges, none doubled
+    let mut text = String::new(); let mut last_dot = true;
+    for t in toks { if t == "." { if !last_dot { text.push('.'); last_dot = true } } else { text.push_str(&t); last_dot = false } }
+    let text = text.trim_end_matches('.').to_string();
+    if text.is_empty() { None } else { Some(text) }
+}
+
 // ------------------------------------------------------------------------------------------ rule generator
 #[derive(Clone, Copy)]
 pub struct RuleCfg {
